@@ -1,28 +1,26 @@
-(** Safety/Numeric.v — C14: every place where a number taken from the file is used in
-    arithmetic, as an index, as a length or as a loop bound ("numeric-parameter sites").
+(** Safety/Numeric.v — C14: the places where a number taken from the file is used in
+    arithmetic, as an index, as a length or as a loop bound ("numeric-parameter sites") IN THE FILES
+    OF THIS AREA: object/function.rs, encoding.rs (/Differences), enc.rs: fax_decode.  The sites in
+    files of other areas (object streams, xref streams, CID /W, crypt key length, page counts,
+    predictor geometry, RunLength) are modelled and proved by those areas; Properties/C14.v
+    re-exports their theorems (Safety/Imported.v).
     Each site is modelled with CHECKED primitives: an operation that panics in Rust (debug
     profile: overflow checks on; slice/array index; assert!; division by zero) returns
     [Panic site] here.  Whether a guard in the code makes the panic unreachable is then a
     theorem (Safety/NumericProofs.v), quantified over the whole Rust integer type.
     Model file: definitions only, every definition names its Rust anchor. *)
-From PdfV Require Import Base.Prelude Gen.Generated Lex.Lexer Codec.Model Safety.Front.
+From PdfV Require Import Base.Prelude Gen.Generated Lex.Lexer Safety.Front.
 
 Definition U64 : N := 18446744073709551616.
 Definition U32 : N := 4294967296.
 Definition ISIZE_MAX : N := 9223372036854775807.
-(* a loop of more than 2^27 steps is not followed further by the models: they stop and report the cost *)
-Definition HUGE : N := 134217728.
 Definition E_NUM : N := 30.      (* an error value (bail!, try_opt!, Bounds, …) *)
 Definition E_PS : N := 31.       (* PdfError::PostScriptExec / PostScriptParse *)
-Definition E_OOB : N := 32.      (* PageOutOfBounds / ObjStmOutOfBounds *)
 
 (* ---- checked primitives ------------------------------------------------------------------ *)
-Definition ck_add (site a b : N) : res N := if a + b <? U64 then Ok (a + b) else Panic site.   (* usize + usize *)
 Definition ck_sub (site a b : N) : res N := if b <=? a then Ok (a - b) else Panic site.        (* usize - usize *)
 Definition ck_mul (site a b : N) : res N := if a * b <? U64 then Ok (a * b) else Panic site.   (* usize * usize *)
 Definition ck_add32 (site a b : N) : res N := if a + b <? U32 then Ok (a + b) else Panic site. (* u32 + u32 *)
-Definition ck_mul32 (site a b : N) : res N := if a * b <? U32 then Ok (a * b) else Panic site. (* u32 * u32 *)
-Definition ck_div (site a b : N) : res N := if b =? 0 then Panic site else Ok (a / b).         (* a / b *)
 Definition ck_rem (site a b : N) : res N := if b =? 0 then Panic site else Ok (a mod b).       (* a % b *)
 Definition ck_idx (site len i : N) : res unit := if i <? len then Ok tt else Panic site.       (* v[i] *)
 Definition ck_nth {A} (site : N) (l : list A) (i : N) : res A :=                               (* v[i] *)
@@ -151,110 +149,6 @@ Fixpoint diff_go (items : list ditem) (gid : N) (acc : list N) : res (list N) :=
   end.
 Definition differences (items : list ditem) : res (list N) := diff_go items 0 [].
 
-(* ---- object/stream.rs: ObjectStream::get_object_slice ------------------------------------- *)
-Definition objstm_slice (first : N) (offsets : list N) (data_len index : N) : res (N * N) :=
-  if lenN offsets <=? index then Err E_OOB else
-  do off <- ck_nth 501 offsets index;
-  do start <- ck_add 502 first off;                      (* self.inner.info.first + self.offsets[index] *)
-  do last <- ck_sub 503 (lenN offsets) 1;
-  if index =? last then Ok (start, data_len) else
-  do i1 <- ck_add 504 index 1;
-  do off1 <- ck_nth 501 offsets i1;
-  do stop <- ck_add 502 first off1;
-  Ok (start, stop).
-
-(* ObjectStream::from_primitive: the header loop `for _ in 0..num_objects { next()?.to::<u64>()?; next()?.to::<usize>()? }` *)
-Fixpoint objstm_header (fuel : nat) (n : N) (s : lx) (acc : list N) : res (list N) :=
-  match fuel with
-  | O => OutOfFuel
-  | S f =>
-    if n =? 0 then Ok (rev acc) else
-    do (t1, s1) <- next s; do _ <- parse_u64 t1;
-    do (t2, s2) <- next s1; do off <- parse_u64 t2;
-    objstm_header f (n - 1) s2 (off :: acc)
-  end.
-
-(* ---- parser/parse_xref.rs: parse_xref_section_from_stream, the entry count ------------------ *)
-Definition xref_section_entries (tolerant : bool) (num w0 w1 w2 data_len : N) : res N :=
-  do s01 <- ck_add 601 w0 w1;
-  do sum <- ck_add 601 s01 w2;
-  do need <- ck_mul 602 num sum;                         (* num_entries * (w0 + w1 + w2) *)
-  if data_len <? need then
-    if tolerant then ck_div 603 data_len sum             (* data.len() / (w0 + w1 + w2) *)
-    else Err E_NUM
-  else Ok num.
-
-(* ---- font.rs: Font::widths, CID branch ------------------------------------------------------ *)
-Inductive witem := WInt (z : Z) | WArr (n : N) | WOther.   (* WArr n: an array of n numbers *)
-(* result: (number of `set` calls, largest cid set + 1) — the time and the memory of the call *)
-Fixpoint widths_go (items : list witem) (sets top : N) : res (N * N) :=
-  match items with
-  | [] => Ok (sets, top)
-  | WInt c1 :: t =>
-    if (c1 <? 0)%Z then Err E_NUM else                    (* p.as_usize()? *)
-    let c1 := Z.to_N c1 in
-    match t with
-    | WArr n :: t' =>
-        do x <- ck_add 701 c1 n;
-        do hi <- ck_sub 702 x 1;                          (* c1 + array.len() - 1 *)
-        widths_go t' (sets + n) (if n =? 0 then top else N.max top (hi + 1))
-    | WInt c2 :: t' =>
-        match t' with
-        | WInt _ :: t'' =>                                (* try_opt!(iter.next()).as_number()? *)
-            let c2' := as_usize c2 in                     (* c2 as usize *)
-            if c1 <=? c2' then                                                               (* for c in c1 ..= c2 *)
-              if HUGE <? c2' - c1 + 1 then Ok (sets + (c2' - c1 + 1), N.max top (c2' + 1))   (* not waited for: the cost is reported *)
-              else widths_go t'' (sets + (c2' - c1 + 1)) (N.max top (c2' + 1))
-            else widths_go t'' sets top
-        | _ => Err E_NUM
-        end
-    | _ => Err E_NUM
-    end
-  | _ => Err E_NUM
-  end.
-Definition widths_site (items : list witem) : res (N * N) := widths_go items 0 0.
-
-(* ---- crypt.rs: Decoder::from_password, key length ------------------------------------------ *)
-(* method: 0 = V2, 1 = AESV2, 2 = AESV3, other = None/Identity; result: key size in bytes at the point
-   where the RC4 password check is made (revisions <= 4), or Err *)
-Definition crypt_key_size (v r bits : N) (cf : option (N * option N)) : res N :=
-  do key_bits <-
-    (if v =? 1 then Ok crypt_v1_bits
-     else if v =? 2 then (if bits mod sf_crypt_bits_mod =? 0 then Ok bits else Err E_NUM)
-     else if (4 <=? v) && (v <=? 6) then
-       match cf with
-       | None => Err E_NUM
-       | Some (m, len) =>
-         if (m =? 0) || (m =? 1) || ((m =? 2) && (v =? 5)) then
-           match len with Some n => ck_mul32 801 crypt_len_mult n | None => Ok bits end     (* default.length.map(|n| 8 * n) *)
-         else Err E_NUM
-       end
-     else Err E_NUM);
-  if (r <? 2) || (6 <? r) then Err E_NUM else
-  if r <=? 4 then
-    do key_size <- ck_div 803 key_bits crypt_bits_div;
-    if key_size =? 0 then Panic 802                       (* Rc4::new: assert!(!key.is_empty() …) *)
-    else Ok key_size
-  else Err E_NUM.                                         (* revisions 5, 6: /U must have 48 bytes … *)
-
-(* ---- object/types.rs: PageTree::page_limited ------------------------------------------------ *)
-Inductive pnode := PLeaf | PTree (count : N) (kids : list pnode).
-Fixpoint page_limited (depth : nat) (kids : list pnode) (page_nr : N) {struct depth} : res unit :=
-  match depth with
-  | O => Err E_NUM                                          (* "page tree depth exeeded" *)
-  | S d =>
-    (fix loop (ks : list pnode) (pos : N) {struct ks} : res unit :=
-       match ks with
-       | [] => Err E_OOB
-       | PLeaf :: t => if pos =? page_nr then Ok tt else do p <- ck_add32 902 pos 1; loop t p
-       | PTree c sub :: t =>
-           do hi <- ck_add32 901 pos c;                     (* pos + tree.count *)
-           if (pos <=? page_nr) && (page_nr <? hi) then page_limited d sub (page_nr - pos)
-           else loop t hi
-       end) kids 0
-  end.
-Definition page_site (kids : list pnode) (page_nr : N) : res unit := page_limited (N.to_nat sf_page_depth) kids page_nr.
-
 (* ---- enc.rs: fax_decode geometry ------------------------------------------------------------- *)
 (* Vec::with_capacity(columns * rows): "capacity overflow" above isize::MAX *)
 Definition fax_capacity (columns rows : N) : res N :=
@@ -262,23 +156,3 @@ Definition fax_capacity (columns rows : N) : res N :=
   if ISIZE_MAX <? c then Panic 1002 else Ok c.
 (* assert_eq!(buf.len() % columns, 0) *)
 Definition fax_check (buf_len columns : N) : res N := ck_rem 1003 buf_len columns.
-
-(* ---- decidable classes excluded by the theorems (open findings) ----------------------------- *)
-Definition objstm_fits (first : N) (offsets : list N) : bool := forallb (fun o => first + o <? U64) offsets.
-(* no /W entry `c [ ]` with an empty array (the precise panic condition is: empty array at code 0) *)
-Definition widths_no_empty_array (items : list witem) : bool :=
-  forallb (fun it => match it with WArr n => negb (n =? 0) | _ => true end) items.
-Fixpoint pnode_ok (n : pnode) : bool :=
-  match n with
-  | PLeaf => true
-  | PTree c kids => (fix all (l : list pnode) : bool := match l with [] => true | k :: t => pnode_ok k && all t end) kids
-  end.
-Definition weight (n : pnode) : N := match n with PLeaf => 1 | PTree c _ => c end.
-Fixpoint level_sum (ks : list pnode) : N := match ks with [] => 0 | k :: t => weight k + level_sum t end.
-Fixpoint counts_fit (fuel : nat) (ks : list pnode) : bool :=
-  match fuel with
-  | O => true
-  | S f => (level_sum ks <? U32) &&
-           (fix all (l : list pnode) : bool :=
-              match l with [] => true | PLeaf :: t => all t | PTree _ sub :: t => counts_fit f sub && all t end) ks
-  end.
